@@ -110,7 +110,7 @@ class FnObj:
         return self.result
 
     def __str__(self):
-        return "FN"
+        return "<FN>"          # a non-string value whose str() carries markup
 
 
 def to_py(v, macros=None):
